@@ -170,6 +170,9 @@ def check_sub_recipe_references_sum_to_whole(
             total_quantity: Optional[Quantity] = None
             if isinstance(node, Ingredient) and len(sub_recipe.output_names) == 1:
                 total_quantity = node.quantity
+                # A zero total cannot be divided up: treat it as unknown
+                if total_quantity is not None and total_quantity.value == 0:
+                    total_quantity = None
 
             # Count up the quantities referred to in the references
             problem_encountered: bool = False
